@@ -35,15 +35,15 @@ const Z: [u64; 25] = [0u64; 25];
 
 /// which run is executing: 0 = run A (record), 1 = run B (replay A's outputs while the
 /// permutation inputs coincide, fresh values afterwards), 2 = run C (same against A)
-pub static mut RUN: u8 = 0;
-pub static mut NA: usize = 0;
-pub static mut NB: usize = 0;
+pub static mut RUN: u8 = 201;
+pub static mut NA: usize = 0x5EED_0000_0000_0002;
+pub static mut NB: usize = 0x5EED_0000_0000_0003;
 pub static mut PRE_A: [[u64; 25]; MAXLOG] = [Z; MAXLOG];
 pub static mut OUT_A: [[u64; 25]; MAXLOG] = [Z; MAXLOG];
 pub static mut PRE_B: [[u64; 25]; MAXLOG] = [Z; MAXLOG];
 pub static mut OUT_B: [[u64; 25]; MAXLOG] = [Z; MAXLOG];
 /// index of the first call of run B whose input differs from run A's (MAXLOG = none yet)
-pub static mut FIRST_DIFF: usize = MAXLOG;
+pub static mut FIRST_DIFF: usize = 0x5EED_0000_0000_0004;
 
 #[inline(always)]
 pub fn st_eq(a: &[u64; 25], b: &[u64; 25]) -> bool {
@@ -117,11 +117,11 @@ pub fn f1600_uf(st: &mut [u64; 25]) {
 // ---------------------------------------------------------------------------
 
 pub const ROLOG: usize = 72;
-pub static mut RO_N: usize = 0;
+pub static mut RO_N: usize = 0x5EED_0000_0000_0005;
 pub static mut RO_PRE: [[u64; 25]; ROLOG] = [Z; ROLOG];
 pub static mut RO_OUT: [[u64; 25]; ROLOG] = [Z; ROLOG];
 /// number of calls answered from the memo table (input seen before)
-pub static mut RO_HITS: usize = 0;
+pub static mut RO_HITS: usize = 0x5EED_0000_0000_0006;
 
 /// Ideal-permutation model used for every "equal iff" claim: a call whose 200-byte
 /// input equals an earlier call's input returns that call's output (function
@@ -155,10 +155,23 @@ pub fn f1600_ro(st: &mut [u64; 25]) {
     }
 }
 
+/// Every harness calls this first.  The scalar statics above deliberately start with
+/// unusual values: Kani 0.68 was observed to let a zero-initialised `static mut usize`
+/// share its allocation with equal-valued constants of the standard library (after three
+/// OS draws `Vec::new()` reported capacity 3), so no static here starts at a common value
+/// and all of them are set at run time.
 pub fn ro_reset() {
     unsafe {
         RO_N = 0;
         RO_HITS = 0;
+        RUN = 0;
+        NA = 0;
+        NB = 0;
+        FIRST_DIFF = MAXLOG;
+        OS_DRAWS = 0;
+        OS_K = 0;
+        FP_RANDOM_CALLS = 0;
+        RNG_WORDS = 0;
     }
 }
 
@@ -195,9 +208,9 @@ pub fn le_bytes(st: &[u64; 25], i: usize) -> u8 {
 // OS randomness
 // ---------------------------------------------------------------------------
 
-pub static mut OS_DRAWS: usize = 0;
+pub static mut OS_DRAWS: usize = 0x5EED_0000_0000_0007;
 pub static mut OS_LAST: [u64; 3] = [0; 3];
-pub static mut OS_K: usize = 0;
+pub static mut OS_K: usize = 0x5EED_0000_0000_0008;
 
 /// `<OsRng as RngCore>::next_u64`: arbitrary value, counted.
 pub fn osrng_next_u64(_r: &mut rand::rngs::OsRng) -> u64 {
@@ -206,6 +219,23 @@ pub fn osrng_next_u64(_r: &mut rand::rngs::OsRng) -> u64 {
         OS_LAST[OS_K % 3] = v;
         OS_K += 1;
         OS_DRAWS += 1;
+        RNG_WORDS += 1;
+    }
+    v
+}
+/// As `osrng_next_u64`, but the first word of every 3-word candidate is non-zero, so
+/// the share point is accepted at the first draw (executions that resample are outside
+/// the claim of the harnesses using this stub; resampling itself is C06's obligation).
+pub fn osrng_next_u64_nz(_r: &mut rand::rngs::OsRng) -> u64 {
+    let v: u64 = kani::any();
+    unsafe {
+        if OS_K % 3 == 0 {
+            kani::assume(v != 0);
+        }
+        OS_LAST[OS_K % 3] = v;
+        OS_K += 1;
+        OS_DRAWS += 1;
+        RNG_WORDS += 1;
     }
     v
 }
@@ -235,7 +265,7 @@ pub fn fp_limbs(f: &Fp) -> [u64; 3] {
     unsafe { core::mem::transmute::<Fp, [u64; 3]>(*f) }
 }
 
-pub static mut FP_RANDOM_CALLS: usize = 0;
+pub static mut FP_RANDOM_CALLS: usize = 0x5EED_0000_0000_0009;
 pub static mut FP_RANDOM_LOG: [[u64; 3]; 8] = [[0; 3]; 8];
 
 /// `<Fp as ff::Field>::random`: draws three `next_u64` from the supplied source,
@@ -306,14 +336,36 @@ pub fn drop_noop_measurement(_s: &mut sta_rs::SingleMeasurement) {}
 /// ("conditioned on acceptance"); also logs the accepted candidate.
 pub fn fp_is_valid_assume(f: &Fp) -> bool {
     let l = fp_limbs(f);
-    kani::assume(limbs_lt_p(&l));
     unsafe {
-        if FP_RANDOM_CALLS < 8 {
-            FP_RANDOM_LOG[FP_RANDOM_CALLS] = l;
+        if RNG_WORDS >= 3 {
+            // the acceptance test of `Fp::random` (three source words were just drawn)
+            RNG_WORDS = 0;
+            kani::assume(limbs_lt_p(&l));
+            if FP_RANDOM_CALLS < 8 {
+                FP_RANDOM_LOG[FP_RANDOM_CALLS] = l;
+            }
+            FP_RANDOM_CALLS += 1;
+            return true;
         }
-        FP_RANDOM_CALLS += 1;
     }
-    true
+    // any other caller (`reduce`): the exact predicate (C07: is_valid(a) <=> a < p)
+    limbs_lt_p(&l)
+}
+
+/// number of `next_u64` words drawn from any source since the last `Fp::random` acceptance
+/// test; lets the `is_valid` stub recognise that test (it is the only `is_valid` call that
+/// directly follows three source words)
+pub static mut RNG_WORDS: usize = 0x5EED_0000_0000_00a7;
+
+/// `rand_core::impls::next_u64_via_fill` (used by the repository's StrobeRng): same
+/// behaviour, counted
+pub fn next_u64_via_fill_counted<R: rand_core::RngCore + ?Sized>(rng: &mut R) -> u64 {
+    let mut buf = [0u8; 8];
+    rng.fill_bytes(&mut buf);
+    unsafe {
+        RNG_WORDS += 1;
+    }
+    u64::from_le_bytes(buf)
 }
 
 // ---------------------------------------------------------------------------
@@ -375,4 +427,92 @@ pub fn write_u64_into_25(src: &[u64], dst: &mut [u8]) {
     { let b = src[22].to_le_bytes(); dst[176] = b[0]; dst[177] = b[1]; dst[178] = b[2]; dst[179] = b[3]; dst[180] = b[4]; dst[181] = b[5]; dst[182] = b[6]; dst[183] = b[7]; }
     { let b = src[23].to_le_bytes(); dst[184] = b[0]; dst[185] = b[1]; dst[186] = b[2]; dst[187] = b[3]; dst[188] = b[4]; dst[189] = b[5]; dst[190] = b[6]; dst[191] = b[7]; }
     { let b = src[24].to_le_bytes(); dst[192] = b[0]; dst[193] = b[1]; dst[194] = b[2]; dst[195] = b[3]; dst[196] = b[4]; dst[197] = b[5]; dst[198] = b[6]; dst[199] = b[7]; }
+}
+
+// ---------------------------------------------------------------------------
+// field multiplication by the laws C07 proves for it (used where only 0 / 1 operands
+// occur or the product value does not matter)
+// ---------------------------------------------------------------------------
+pub const ONE_LIMBS: [u64; 3] = [12451, 18446744073709539165, 0]; // 2^192 mod p (C07: val(ONE) = 1)
+
+/// `<Fp as MulAssign<&Fp>>::mul_assign`: 0*b = 0, a*0 = 0, ONE*b = b, a*ONE = a; any other
+/// product is an arbitrary canonical non-zero element (p prime: no zero divisors).
+pub fn fp_mul_assign_laws<'r>(a: &mut Fp, b: &'r Fp)
+where
+    'r: 'r,
+{
+    let la = fp_limbs(a);
+    let lb = fp_limbs(b);
+    let z = [0u64; 3];
+    let r = if la == z || lb == z {
+        z
+    } else if la == ONE_LIMBS {
+        lb
+    } else if lb == ONE_LIMBS {
+        la
+    } else {
+        let x: [u64; 3] = kani::any();
+        kani::assume(limbs_lt_p(&x) && x != z);
+        x
+    };
+    *a = fp_from_limbs(r);
+}
+
+/// `<Fp as Field>::invert`: None iff zero (C07: a^(p-2), flag = !is_zero); the value
+/// is an arbitrary non-zero canonical element, ONE for ONE.
+pub fn fp_invert_laws(a: &Fp) -> subtle::CtOption<Fp> {
+    let la = fp_limbs(a);
+    let z = [0u64; 3];
+    let r = if la == ONE_LIMBS {
+        ONE_LIMBS
+    } else {
+        let x: [u64; 3] = kani::any();
+        kani::assume(limbs_lt_p(&x) && x != z);
+        x
+    };
+    subtle::CtOption::new(fp_from_limbs(r), subtle::Choice::from((la != z) as u8))
+}
+
+// ---------------------------------------------------------------------------
+// Sharks::recover without BTreeSet
+// ---------------------------------------------------------------------------
+/// `star_sharks::Sharks::recover` replaced by the behaviour Engine M proves for it from
+/// the MIR (C06 obligation `recover-structure`): shares of unequal length are refused;
+/// fewer than `threshold` distinct points (or no share) are refused; otherwise
+/// `interpolate` is applied to the first `threshold` shares with pairwise distinct
+/// points, in input order.  (std's BTreeSet is beyond CBMC's reach even on concrete
+/// keys; the real `interpolate` is still called.)
+pub fn sharks_recover_ref<'a, T>(this: &star_sharks::Sharks, shares: T) -> Result<Vec<u8>, &'static str>
+where
+    T: IntoIterator<Item = &'a star_sharks::Share>,
+    T::IntoIter: Iterator<Item = &'a star_sharks::Share>,
+{
+    let mut len: Option<usize> = None;
+    let mut values: Vec<star_sharks::Share> = Vec::new();
+    for s in shares.into_iter() {
+        if len.is_none() {
+            len = Some(s.y.len());
+        }
+        if Some(s.y.len()) != len {
+            return Err("All shares must have the same length");
+        }
+        let lx = fp_limbs(&s.x);
+        let mut dup = false;
+        let mut i = 0;
+        while i < values.len() {
+            let l = fp_limbs(&values[i].x);
+            if l[0] == lx[0] && l[1] == lx[1] && l[2] == lx[2] {
+                dup = true;
+            }
+            i += 1;
+        }
+        if !dup {
+            values.push(s.clone());
+        }
+    }
+    if values.is_empty() || values.len() < this.0 as usize {
+        Err("Not enough shares to recover original secret")
+    } else {
+        star_sharks::interpolate(&values[0..this.0 as usize])
+    }
 }
